@@ -121,6 +121,7 @@ type CheckConfig struct {
 	MaxSec     int
 	NoReplay   bool
 	SkipSelf   bool
+	StopAfter  int    // seeded-defect evaluation: stop at this many candidate findings (0 = explore everything)
 	Tag        string // scratch runs (seeded-defect evaluation): separate output and evidence locations
 	SolverName string
 }
@@ -460,7 +461,11 @@ func RunCheck(cfg *CheckConfig) *CheckOutcome {
 		}
 		opts := ExploreOpts{Workers: cfg.Workers, Tier: cfg.Tier, Deadline: time.Now().Add(share), MaxPaths: plan.MaxPaths,
 			PanicIsFinding: plan.Panic, SharedIsFinding: plan.Shared, CostIsFinding: plan.Cost, BudgetIsFinding: plan.Cost, SolverName: cfg.SolverName,
-			CrossSolver: "z3-new", CrossEvery: crossEvery(cfg.Tier)}
+			CrossSolver: "z3-new", CrossEvery: crossEvery(cfg.Tier), StopAfter: cfg.StopAfter}
+		if cfg.StopAfter > 0 && len(allFindings) >= cfg.StopAfter {
+			incomplete = append(incomplete, h)
+			continue
+		}
 		rep := w.Explore(h, opts)
 		reports = append(reports, rep)
 		fmt.Println(rep.Summary())
